@@ -172,7 +172,8 @@ def replay(bundle):
         log("recorded answers of the quiescent store: %s" % json.dumps(bundle["scenario"]["h"]))
         binp = build_harness(d, race=True)
         sp = os.path.join(d, "stress.ndjson")
-        run_harness(binp, ["storeconc", "--out", sp, "--seed", "1", "--count", "2000", "--modes", "stress"])
+        run_harness(binp, ["storeconc", "--out", sp, "--seed", "1", "--count", "2000", "--modes", "stress"],
+                    env={"GORACE": "log_path=%s halt_on_error=0 exitcode=0" % os.path.join(d, "race")})
         sf, _, _ = judge_histories(d, "TPStore", sp, pid, shards=2)
         if sf:
             log("VIOLATION property=%s replay=%s (inconsistent quiescent store reproduced in %d of 2000 stress runs)" % (pid, bundle.get("_path", "?"), len(sf)))
@@ -195,7 +196,8 @@ def replay(bundle):
     binp = build_harness(d, race=True)
     for attempt in range(20):
         hist = os.path.join(d, "replay_hist.ndjson")
-        run_harness(binp, ["storeconc", "--out", hist, "--seed", str(attempt), "-x", "replay=" + rp])
+        run_harness(binp, ["storeconc", "--out", hist, "--seed", str(attempt), "-x", "replay=" + rp],
+                    env={"GORACE": "log_path=%s halt_on_error=0 exitcode=0" % os.path.join(d, "race")})
         ok2, _, _ = lin_check(d, hist, "lin_replay2")
         if not ok2:
             log("VIOLATION property=%s replay=%s (non-linearizable history reproduced on re-execution %d)" % (pid, bundle.get("_path", "?"), attempt + 1))
